@@ -3,6 +3,7 @@ package main
 import (
 	"encoding/json"
 	"fmt"
+	"strconv"
 	"strings"
 	"sync"
 	"time"
@@ -281,9 +282,13 @@ func runFree(c *Case, e *evalCtx) *freeResult {
 		e.prop("stop:flush-missed", "after the loop returned %d records / %d bytes are still buffered", cnt, blen)
 	}
 
-	// ---- equivalent sequential history: add+step per emitted record, an idle step at every pack boundary, stop
+	// ---- an equivalent schedule of the loop machine (Golib.ZipSender.Loop, driver line `L`):
+	// the loop enters GetTimeout (`t<j>`: 1+j polls fit), polls empty-handed j times, the producer's
+	// Add lands, the next poll finds the record; at an observed pack boundary that the model does not
+	// produce by itself GetTimeout runs out of polls (idle flush); finally the cancellation (`k`) is
+	// noticed at the next select (`t0`)
 	var sb strings.Builder
-	fmt.Fprintf(&sb, "H fixed %s ", st.String())
+	fmt.Fprintf(&sb, "L fixed %s ", st.String())
 	first := true
 	put := func(s string) {
 		if !first {
@@ -292,28 +297,41 @@ func runFree(c *Case, e *evalCtx) *freeResult {
 		first = false
 		sb.WriteString(s)
 	}
+	polls := func(j int) {
+		for i := 0; i < j; i++ {
+			put("p")
+		}
+	}
 	if f.Accept == "stalled" {
-		// the exact history: every Add (the model refuses the overflow itself), then one loop
-		// iteration per accepted record, the idle flush, the stop
+		// the exact schedule: every Add before the loop starts (the model refuses the overflow
+		// itself), then one successful GetTimeout per accepted record, the idle timeout, the stop
 		for _, id := range stalledOrder {
 			put("a:" + e.recs[id].line())
 		}
 		for _, id := range stalledOrder {
 			if !dropped[id] {
-				put("s")
+				put("t" + strconv.Itoa(id%3))
+				put("p")
 			}
 		}
-		put("s")
+		put("t1")
+		polls(2)
 	} else {
 		for _, ids := range sharedPacks {
 			for _, id := range ids {
+				j := (id*7 + 3) % 3
+				put("t" + strconv.Itoa(j))
+				polls(j)
 				put("a:" + e.recs[id].line())
-				put("s")
+				put("p")
 			}
-			put("s")
+			j := len(ids) % 3
+			put("t" + strconv.Itoa(j))
+			polls(j + 1)
 		}
 	}
-	put("x")
+	put("k")
+	put("t0")
 	for _, b := range f.Direct {
 		if len(b) == 0 {
 			put("d:-")
